@@ -14,7 +14,7 @@ LEVEL = "proof"
 EXTRA_PROPS = ["QuantemModel.Props.C07Ext"]     # growth round 6: angle sets outside ascending [0, 180], accumulation loop
 MANIFEST_ENTRY = {
     "category": "proof",
-    "text": "Lean 4 theorems (95 = 81 in Props/C07 + 14 in Props/C07Ext, over the reals) about one executable model (generic numeric carrier, run at Float) of BOTH the torch port "
+    "text": "Lean 4 theorems (98 = 81 in Props/C07 + 17 in Props/C07Ext, over the reals) about one executable model (generic numeric carrier, run at Float) of BOTH the torch port "
             "(radon_torch, get_fourier_filter_torch, iradon_torch) and the scikit-image reference (radon circle mode, _get_fourier_filter, "
             "iradon linear): the sampling coordinates of the two Radon algorithms coincide for every size >= 2, angle and pixel (grid_sample "
             "normalisation round trip, rotation about N//2), hence every sinogram sample agrees; the six Fourier filters coincide bin by bin "
@@ -57,7 +57,7 @@ MANIFEST_ENTRY = {
             "sinogram, the back-projection does not depend on the order in which (row, angle) pairs are visited (any permutation; list-level: "
             "reversed rows and angles); THE ACCUMULATION LOOP — `recon = zeros; for angle: recon += proj` is the sum the model uses, and the "
             "BATCHED call as the code computes it (one zero tensor [B,out,out], per angle one image per batch item from filtered[:, i, :] added "
-            "in place, mask and scaling on the batch) equals the per-sinogram model and scikit-image's iradon of every item "
+            "in place, mask and scaling on the batch) equals the per-sinogram model (whole reconstructions: iradon_angle_period; radon_half_turn: the projection from the opposite side is the projection of the image turned by 180 degrees, not the same projection) and scikit-image's iradon of every item "
             "(iradon_batch_accumulate_refines, iradon_batch_loop_agrees_reference: batching of iradon_torch is now proved, no longer by "
             "construction), run by the driver against the real batched call; THE INTEGERS of the padding steps (iradonGeom: diagonal, "
             "pad_before / after, padded size, pad_y, output size) with their specification for every width (iradon_geometry_spec), compared "
